@@ -981,7 +981,7 @@ func (v *Verifier) applyContract(s *State, fc *FuncContract, fn *types.Func, rec
 		}
 	}
 	for _, c := range fc.clauses("ensures") {
-		s.assume(env.at(s, pre).trBool(c.Expr))
+		s.assume(v.trLenient(env.at(s, pre), c.Expr, fc))
 	}
 	for _, c := range fc.clauses("defines") {
 		// definitional postcondition: gives a name to the function's result; not proved in the callee
@@ -1045,9 +1045,38 @@ func (v *Verifier) havocAssigns(s *State, pre *State, fc *FuncContract, env *CEn
 	bump()
 	for _, c := range cls {
 		for _, a := range c.Args {
-			v.havocItem(s, pre, env, a)
+			v.havocItemLenient(s, pre, env, a, fc)
 		}
 	}
+}
+
+// havocItemLenient: in a trusted contract, an item all(T.f) (or a clause) about a type of a
+// package that is not loaded for this check is skipped: no object of that type can occur in
+// the code being verified.
+func (v *Verifier) havocItemLenient(s *State, pre *State, env *CEnv, a *CExpr, fc *FuncContract) {
+	defer func() {
+		if r := recover(); r != nil {
+			if se, ok := r.(subsetError); ok && fc.Flags["trusted"] && strings.Contains(se.msg, "unknown type") {
+				return
+			}
+			panic(r)
+		}
+	}()
+	v.havocItem(s, pre, env, a)
+}
+
+// trLenient translates a clause of a trusted contract; a clause about an unknown (not loaded) type is true.
+func (v *Verifier) trLenient(env *CEnv, e *CExpr, fc *FuncContract) (t *Term) {
+	defer func() {
+		if r := recover(); r != nil {
+			if se, ok := r.(subsetError); ok && fc.Flags["trusted"] && strings.Contains(se.msg, "unknown type") {
+				t = TTrue
+				return
+			}
+			panic(r)
+		}
+	}()
+	return env.trBool(e)
 }
 
 // havocItem: one element of an assigns list.
